@@ -112,14 +112,15 @@ func c17Calls(t *ref.Table, pool []string) []call {
 
 func c17Check(cfg RouterCfg, hist []Op, r *Router, t *ref.Table, c *explore.Child, outc map[string]struct{}, pool []string, paths []string) {
 	hs := opsStrings(hist)
+	// the state before any of the calls: probing does not change a router, so it is taken once
+	before := c17Vector(r, paths)
+	kb := explore.Key(r)
 	for _, x := range c17Calls(t, pool) {
 		verdict, why := t.Judge(x.P, x.Ms)
 		if verdict == ref.Accept {
 			continue
 		}
-		r2, _, _ := buildHistory(cfg, hist)
-		before := c17Vector(r2, paths)
-		kb := explore.Key(r2)
+		r2, _, _ := buildHistory(cfg, hist) // an identical copy of the state: the call may change it
 		pv, paniced := Guard(func() { r2.Handle(x.P, hv.Route("h:rejected"), nil, x.Ms...) })
 		c.Probes += int64(len(before)) * 2
 		outc[fmt.Sprintf("%s/%v/%s", why, paniced, PanicClass(pv))] = struct{}{}
@@ -135,6 +136,10 @@ func c17Check(cfg RouterCfg, hist []Op, r *Router, t *ref.Table, c *explore.Chil
 		if pc := PanicClass(pv); pc != "error" {
 			rep("C17.error-value", "panic-not-error:"+pc, fmt.Sprintf("panic(%T): %v", pv, pv), "panic with an error value")
 		}
+		if explore.Key(r2) == kb {
+			continue // the private object graph is unchanged, so is everything observable (it is a function of that graph)
+		}
+		outc["note:private-state-restructured-by-rejected-call"] = struct{}{}
 		after := c17Vector(r2, paths)
 		for i := range before {
 			if before[i] != after[i] {
@@ -147,9 +152,6 @@ func c17Check(cfg RouterCfg, hist []Op, r *Router, t *ref.Table, c *explore.Chil
 				rep("C17.unchanged", class, "before: "+before[i]+" ; after: "+after[i], "identical")
 				break
 			}
-		}
-		if explore.Key(r2) != kb {
-			outc["note:private-state-restructured-by-rejected-call"] = struct{}{}
 		}
 	}
 }
